@@ -2,6 +2,7 @@ package eng
 
 import (
 	"fmt"
+	"regexp"
 	"sort"
 	"strconv"
 	"strings"
@@ -23,6 +24,8 @@ type gofile struct {
 	dot     map[string]bool
 }
 
+var identRE = regexp.MustCompile(`[\pL_][\pL\pN_]*`)
+
 const (
 	pkgUnsafe = -1
 	pkgTrace  = -2
@@ -43,6 +46,10 @@ func (f *gofile) use(p int) string {
 		f.imports[ModPath+"/trace"] = ""
 		return "trace"
 	case pkgWire:
+		if f.r.S.WireImport == "alias" {
+			f.imports["github.com/google/wire"] = "zzw"
+			return "zzw"
+		}
 		f.imports["github.com/google/wire"] = ""
 		return "wire"
 	}
@@ -86,6 +93,8 @@ func (f *gofile) String() string {
 		for _, p := range SortedKeys(f.imports) {
 			if a := f.imports[p]; a != "" {
 				fmt.Fprintf(&b, "\t%s %q\n", a, p)
+			} else if p == "github.com/google/wire" && f.r.S.WireImport == "raw" {
+				fmt.Fprintf(&b, "\t`%s`\n", p)
 			} else {
 				fmt.Fprintf(&b, "\t%q\n", p)
 			}
@@ -399,7 +408,7 @@ func (r *Renderer) ValueHome() map[int]int {
 	return home
 }
 
-func sigString(f *gofile, params []Param, variadic bool, results []*Type, named bool) string {
+func sigString(f *gofile, params []Param, variadic bool, results []*Type, named bool, resNames ...string) string {
 	var ps []string
 	for i, p := range params {
 		t := f.ty(p.T)
@@ -418,13 +427,17 @@ func sigString(f *gofile, params []Param, variadic bool, results []*Type, named 
 		}
 	}
 	var rs []string
-	for _, t := range results {
-		rs = append(rs, f.ty(t))
+	for i, t := range results {
+		if len(resNames) == len(results) {
+			rs = append(rs, resNames[i]+" "+f.ty(t))
+		} else {
+			rs = append(rs, f.ty(t))
+		}
 	}
 	res := ""
-	switch len(rs) {
-	case 0:
-	case 1:
+	switch {
+	case len(rs) == 0:
+	case len(rs) == 1 && len(resNames) != 1:
 		res = " " + rs[0]
 	default:
 		res = " (" + strings.Join(rs, ", ") + ")"
@@ -579,8 +592,21 @@ func (r *Renderer) Files() map[string]string {
 			if in.Doc != "" {
 				f.p("// %s\n", in.Doc)
 			}
-			f.p("func %s%s {\n", in.Name, sigString(f, in.Params, in.Variadic, r.M.InjResults(in), true))
 			build := f.use(pkgWire) + ".Build(" + f.refList(in.Args) + ")"
+			// result names are in scope in the body: they are dropped when they
+			// would shadow something the template refers to
+			resNames := in.ResNames
+			if len(resNames) > 0 {
+				text := "panic new " + build + " " + sigString(f, in.Params, in.Variadic, r.M.InjResults(in), true)
+				for _, id := range identRE.FindAllString(text, -1) {
+					for _, rn := range resNames {
+						if rn == id && rn != "_" {
+							resNames = nil
+						}
+					}
+				}
+			}
+			f.p("func %s%s {\n", in.Name, sigString(f, in.Params, in.Variadic, r.M.InjResults(in), true, resNames...))
 			if in.Panic {
 				f.p("\tpanic(%s)\n", build)
 			} else {
